@@ -11,3 +11,13 @@ def gen_replay(pid):
             return True, 'generated program case passes'
         return None
     return replay
+
+
+def e3_replay(pid, case):
+    from hv import e3, e3mon
+    base = e3.base_by_name(case['base'], case['year'])
+    r, asked = e3.run_return(case['year'], base, case['assign'], keep_solver=True)
+    viols, cnt = e3mon.monitor(pid, case['year'], base, case['assign'], r, asked)
+    if viols:
+        return False, f'{viols[0][0]}: {viols[0][1]}'
+    return True, f'return {case["base"]}/{case["year"]} + {case["assign"]} passes ({r.outcome_class()})'
